@@ -393,9 +393,14 @@ Section XmlTotal.
           -- destruct (find_field (local_name tg) fs) as [f|] eqn:Ff.
              ++ pose proof (find_field_wf _ _ _ _ Wfs Ff) as Wf. unfold field_wf in Wf.
                 apply andb_prop in Wf as [Wty Wk].
-                apply safe_bind.
-                ** apply Hk. destruct (f_kind f), (f_ty f); auto using ty_wf_top_of_wf.
-                ** intros _ _. apply safe_bind; [exact IH|]. intros; conc.
+                cbv zeta.
+                destruct (f_kind f) eqn:Fk.
+                ** (* an element child: decoded and counted *)
+                   useg. apply safe_bind.
+                   --- apply Hk. destruct (f_ty f); auto using ty_wf_top_of_wf.
+                   --- intros _ _. apply safe_bind; [exact IH|]. intros; conc.
+                ** (* named like an XmlAttribute member: skipped *)
+                   useg. exact IH.
              ++ apply safe_bind; [exact IH|]. intros; conc.
           -- destruct ok.
              ++ useg. exact IH.
